@@ -335,7 +335,10 @@ def eval_spec(spec):
                 # an inexact physical projection (coarse eps_proj_physical) limits the attainable accuracy: the relative
                 # entropy is sensitive to the normalisation defect it leaves (observed amplification <= 90)
                 delta = math.sqrt(spec["eps_proj"] or 1e-14)
-                tol = (1e-4 + 10 * delta) if est[1] in ("se", "fse") else (5e-3 + 300 * delta)
+                # (the relative entropy gains ~delta per schedule from the normalisation slack an inexact projection leaves and pays
+                #  ~d^2 for a displacement d: d ~ sqrt(#schedules * delta); 2-qubit QPT, 144 schedules, eps 1e-10: 1.4e-2 observed)
+                n_sched = len(empi)
+                tol = (1e-4 + 10 * delta) if est[1] in ("se", "fse") else (5e-3 + max(300 * delta, 2 * math.sqrt(n_sched * delta)))
             else:
                 tol = None
             # POVM / measurement-process tomography with on_para_eq_constraint=True: the last element is a dependent
